@@ -153,6 +153,38 @@ def run_part(run, fails, stats):
     finally:
         srv.stop()
     shutil.rmtree(wd3, ignore_errors=True)
+    # a periodic save that FAILS once (the temporary file's name is taken by a directory) right after the compound was learned:
+    # once the fault is gone the next periodic save must write the compound — a failed save must not count as done
+    wd4 = S.workdir("c20fail")
+    dic4 = S.make_dictionary(bindir, wd4)
+    ud4 = os.path.join(wd4, "user")
+    os.makedirs(ud4, exist_ok=True)
+    srv = S.Server(bindir, dic4, ud4, workers=4, save_secs=1)
+    try:
+        if dic4 is not None and srv.wait_listening():
+            r0 = srv.conv("おさけ")
+            t0_ = S.texts(r0) or []
+            if "御酒" in t0_:
+                blocker = os.path.join(ud4, "user.dic.tmp")
+                os.makedirs(blocker, exist_ok=True)               # File::create(user.dic.tmp) now fails
+                srv.rpc("UpdateFrequency", {"session_id": r0[1]["session_id"], "candidate_id": str(t0_.index("御酒"))})
+                stats["compounds_confirmed"] += 1
+                time.sleep(2.6)                                   # at least two failing ticks
+                try:
+                    os.rmdir(blocker)
+                except OSError:
+                    pass
+                line = "おさけ\t御酒\t/一般名詞/"
+                p4 = os.path.join(ud4, "user.dic")
+                saved = S.wait_until(lambda: os.path.isfile(p4) and line in open(p4, encoding="utf-8", errors="replace").read().split("\n"), 6.0)
+                w = {"input": "おさけ", "confirmed": "御酒", "fault": "user.dic.tmp was a directory for 2.6 s after the confirmation (save failed)",
+                     "save_period_s": 1, "files_afterwards": sorted(os.listdir(ud4))}
+                stats["failed_save_then_recovered"] = bool(saved)
+                if saved is None:
+                    fails.append(("compound-not-saved", {"kind": "compound-not-saved", "phase": "after-a-failed-save"}, w))
+    finally:
+        srv.stop()
+    shutil.rmtree(wd4, ignore_errors=True)
     # a confirmation that arrives WHILE a periodic save is being written (a large user dictionary makes the save slow): the
     # compound must reach user.dic with a later save and survive a restart
     ud2 = os.path.join(wd, "race-user")
